@@ -32,8 +32,15 @@ def build_lp(ref, extra_fixed=None):
         u = ref.user[n]
         lp.set_col(index[n], None if u["lb"] == -math.inf else u["lb"], None if u["ub"] == math.inf else u["ub"])
     met_rows = {}
+    slack = {}
+    for n in uvars:
+        for m, c in (ref.user[n].get("met_rows") or {}).items():
+            if m not in ref.mets:
+                return None  # recorded for a metabolite that has been renamed/removed since: not expressible
+            slack.setdefault(m, {})[index[n]] = c
     for m in sorted(ref.mets):
         coefs = {index[r]: ref.rxns[r]["mets"][m] for r in rids if m in ref.rxns[r]["mets"]}
+        coefs.update(slack.get(m, {}))  # user variables explicitly put into the row (add_lp_feasibility)
         met_rows[m] = lp.add_row(coefs, 0, 0)
     for n, u in sorted(ref.user.items()):
         if u["kind"] != "con":
@@ -70,7 +77,28 @@ def solve_ref(ref, direction=None, objective=None, extra_fixed=None):
     res = reflp.solve(lp, c, direction or ref.direction)
     if not res.certified:
         return None
+    if res.status == "infeasible" and not robustly_infeasible(lp):
+        return None  # infeasible only by less than the solver tolerance (e.g. a bound computed from a float optimum)
     return res, lp, index, met_rows
+
+
+def robustly_infeasible(lp, eps=1e-6):
+    """True iff the LP stays infeasible when every finite bound is relaxed by eps*(1+|bound|)."""
+    r = reflp.LP(lp.ncols)
+    F = reflp.Fraction
+
+    def lo_(b):
+        return None if b is None else b - F(eps) * (1 + abs(b))
+
+    def hi_(b):
+        return None if b is None else b + F(eps) * (1 + abs(b))
+
+    for j in range(lp.ncols):
+        r.set_col(j, lo_(lp.lo[j]), hi_(lp.hi[j]))
+    for i, row in enumerate(lp.rows):
+        r.add_row(dict(row), lo_(lp.row_lo[i]), hi_(lp.row_hi[i]))
+    res = reflp.solve(r, {}, "max")
+    return res.certified and res.status == "infeasible"
 
 
 def _f(x):
@@ -90,7 +118,10 @@ def check_point(ref, fluxes, what="fluxes"):
             probs.append(f"{what}: {r}={v} below lower bound {x['lb']}")
         if v > x["ub"] + TOL * (1 + abs(x["ub"])) if x["ub"] != math.inf else False:
             probs.append(f"{what}: {r}={v} above upper bound {x['ub']}")
+    slack_rows = {m for u in ref.user.values() if u["kind"] == "var" for m in (u.get("met_rows") or {})}
     for m in ref.mets:
+        if m in slack_rows:
+            continue  # the row holds a user variable whose value a Solution does not report
         terms = [x["mets"][m] * fluxes.get(r, 0.0) for r, x in ref.rxns.items() if m in x["mets"]]
         if abs(sum(terms)) > TOL * (1 + max([abs(t) for t in terms] or [0])):
             probs.append(f"{what}: steady state of {m} violated by {sum(terms)}")
